@@ -132,6 +132,8 @@ func RunC02(c *Ctx) {
 		gen.SystematicEdits(cc.Text, func(m string) { CheckC02(c, cc.Entries()[0], m) })
 	}
 	operandMatrix(c, func(entry, input string) { CheckC02(c, entry, input) })
+	valueSlotMatrix(c, func(entry, input string) { CheckC02(c, entry, input) })
+	foldAlikeWorkload(c, func(entry, input string) { CheckC02(c, entry, input) })
 	for i, sf := range qualifiedSpecialForms() {
 		if c.Mine(i) {
 			CheckC02(c, "expr", sf)
@@ -374,6 +376,8 @@ func RunC08(c *Ctx) {
 			}
 		}
 	}
+	// every expression form in every slot where the grammar allows any expression
+	valueSlotMatrix(c, func(entry, input string) { CheckC08(c, entry, input) })
 	// identifiers that spell a pseudo-keyword of the same sentence (always back-quoted) are ordinary identifiers
 	pkwNamedWorkload(c, func(entry, input string) { CheckC08(c, entry, input) })
 	// keyword-like identifiers in lower / upper case are covered by render policies 0 (upper) and 1 (lower)
